@@ -55,6 +55,14 @@ theorem phase1_terminates {X} (num : Num X) (sp : Space) (hs : SpaceOk sp) (x : 
     (by omega) (by omega) hinit hk
   exact ⟨items, h⟩
 
+/-- The fuel bound of the model's search loop is immaterial: once a search returns a cut, every
+larger fuel returns the same cut (so `2·cur_n_items` iterations are the unbounded `while True:`). -/
+theorem search1_fuel_irrelevant {X} (num : Num X) (cutter : X) (n dir orig : Int) (fuel k : Nat)
+    (items : List PItem) (sel : Int) (d : Bool) (r : List PItem)
+    (h : search1 num cutter n dir orig fuel items sel d = some r) :
+    search1 num cutter n dir orig (fuel + k) items sel d = some r :=
+  search1_fuel_mono num cutter n dir orig fuel k items sel d r h
+
 /-- After phase 1 there are exactly `n_items` items of total area `min_bins·W·H`, each with
 `1 ≤ w ≤ W`, `1 ≤ h ≤ H`, and their (ghost) places are a packing into the bins `1..min_bins`
 without overlap — a guillotine layout. -/
